@@ -139,7 +139,7 @@ def _case(rng: Rng, d, tier, mode=None):
     yk = rng.choice(["rand", "smooth", "noisy", "noisy", "zeros"] if rng.random() < 0.1 else ["rand", "smooth", "noisy", "noisy"])
     y = _responses(rng, grids, yk)
     c = dict(kind=f"fit{d}", d=d, ord=rng.randint(1, 3), dims=dims, y=[rs(v) for v in y], w=None if w is None else [rs(v) for v in w],
-             wk=wk, yk=yk, int_opts=(d > 1 and rng.random() < 0.15), history=rng.random() < 0.2,
+             wk=wk, yk=yk, int_opts=(d > 1 and rng.random() < 0.15), history=rng.random() < 0.35,
              default_penalty=rng.random() < 0.08, a=rs(rng.dyadic(-3, 3, 2)), c=rs(rng.dyadic(-3, 3, 2)), sub=rng.randint(0, 10 ** 6))
     if c["int_opts"]:
         for dd in c["dims"][1:]:
@@ -246,6 +246,56 @@ def _sub_grids(case, xs):
     return out
 
 
+def _variant_grid(x, kind):
+    """Another sampling grid derived from `x` (float arrays; every variant is strictly increasing)."""
+    if kind == "same" or len(x) < 2:
+        return x.copy()
+    x0, xn = x[0], x[-1]
+    u = (x - x0) / (xn - x0)
+    if kind == "warp":      # same length, same end points, other interior points
+        return x0 + (xn - x0) * u ** 2
+    if kind == "unwarp":    # same length and end points, uniform interior
+        return np.linspace(x0, xn, len(x))
+    if kind == "shift":     # same length and spacing, other range
+        return x + 1.5 * (xn - x0)
+    return np.linspace(x0, xn, len(x) + 2)  # "longer"
+
+
+def _history(ps, case, xs):
+    """Fit `ps` a few times before the fit under test; return a description of the first step whose results
+    differ from those of a fresh object given the same inputs (None if all agree)."""
+    rng = Rng(f"hist-{case['sub']}")
+    d = case["d"]
+    dims = case["dims"]
+    bad = None
+    for step in range(rng.randint(1, 3)):
+        kinds = [rng.choice(["warp", "warp", "unwarp", "same", "shift", "longer"]) for _ in range(d)]
+        gx = [_variant_grid(x, k) for x, k in zip(xs, kinds)]
+        shp = [len(g) for g in gx]
+        n = int(np.prod(shp))
+        y0 = np.array([float(rng.dyadic(-4, 4, 2)) for _ in range(n)]).reshape(shp)
+        w0 = np.array([float(rng.choice([0, 1, 1, 2])) for _ in range(n)]).reshape(shp)
+        if not w0.any():
+            w0.flat[0] = 1.0
+        kw = {}
+        if any(dd["wide"] for dd in dims) and rng.random() < 0.7:
+            kw["domain_min"] = [float(F(dd["dmin"])) for dd in dims]
+            kw["domain_max"] = [float(F(dd["dmax"])) for dd in dims]
+        pen = tuple(2.0 ** rng.randint(-3, 3) for _ in range(d))
+        x_arg = gx[0] if d == 1 and rng.random() < 0.5 else list(gx)
+        ps.fit(y0, x_arg, sample_weights=w0, penalty=pen, **kw)
+        p1 = np.asarray(ps.predict(list(gx) if d > 1 else gx[0]))
+        fr = _new(case)
+        fr.fit(y0, x_arg, sample_weights=w0, penalty=pen, **kw)
+        same = (np.array_equal(np.asarray(ps.y_hat), np.asarray(fr.y_hat), equal_nan=True)
+                and np.array_equal(np.asarray(ps.diagnostics["hat_matrix"]), np.asarray(fr.diagnostics["hat_matrix"]), equal_nan=True)
+                and np.array_equal(p1, np.asarray(fr.predict(list(gx) if d > 1 else gx[0])), equal_nan=True))
+        if not same and bad is None:
+            bad = f"step {step} (grids {kinds}): y_hat / hat / predict of the re-used object differ from a fresh fit on the same inputs"
+        ps.predict([g[:2] for g in gx] if d > 1 else gx[0][:2])
+    return bad
+
+
 def run_impl(case):
     import warnings
 
@@ -255,18 +305,12 @@ def run_impl(case):
     xs, shape, y, w = _setup(case)
     d = case["d"]
     out = {}
+    ps = _new(case)
     if case.get("history"):
-        # stale state: the object has been fitted before with other data / weights / penalty
-        ps = _new(case)
-        rng = Rng(f"hist-{case['sub']}")
-        y0 = np.array([float(rng.dyadic(-4, 4, 2)) for _ in range(y.size)]).reshape(shape)
-        w0 = np.array([float(rng.choice([0, 1, 2])) for _ in range(y.size)]).reshape(shape)
-        if not w0.any():
-            w0.flat[0] = 1.0
-        ps.fit(y0, list(xs), sample_weights=w0, penalty=tuple(2.0 ** rng.randint(-3, 3) for _ in range(d)))
-        ps.predict([x[:2] for x in xs] if d > 1 else xs[0][:2])
-    else:
-        ps = _new(case)
+        # stale state: the SAME object has been fitted before — on the same grid, on grids sharing length and
+        # end points with the final one (uniform <-> warped), on other ranges / lengths — with other data, weights,
+        # penalties, with and without the final options; every step is compared with a fresh object
+        out["hist_bad"] = _history(ps, case, xs)
     _fit(ps, case, y, xs, w)
     out["shape_y"] = list(np.shape(ps.y_hat))
     out["shape_b"] = list(np.shape(ps.beta_hat))
@@ -557,7 +601,10 @@ def _oracle_predict(case, impl, vs, bad, y_hat, causes):
     e = np.abs(np.array(impl["pred_nodes"]) - np.array(impl["nodes_ref"])).max() / max(np.abs(y_hat).max(), 1e-300)
     if not e <= 1e-10:
         bad("predict_fit_grid", f"predict on a subset of the fitting grid differs from the fitted values there by {e:.3g}", ["query_subset"])
-    # second fit on a used object
+    # earlier fits on the same object
+    if impl.get("hist_bad"):
+        bad("history", impl["hist_bad"], causes)
+    # the fit under test on a used object
     if "fresh" in impl:
         fr = impl["fresh"]
         for k in ("y_hat", "beta", "hat", "pred_sub"):
